@@ -2,6 +2,7 @@ package h
 
 import (
 	"fmt"
+	"strings"
 	"time"
 
 	sgbucket "github.com/couchbase/sg-bucket"
@@ -62,9 +63,20 @@ func opSafe(name string, f func(w *SWorld, st *TState) error) SOp {
 
 // followUp: after the race, a different bucket and the surviving handles must still be usable
 // (no lock left held, no panic); calls on the shut-down store may fail but must return.
-func followUp(name string) func(w *SWorld, ops []OpRec, final string) []Violation {
+func followUp(name string, shutsDown ...bool) func(w *SWorld, ops []OpRec, final string) []Violation {
 	return func(w *SWorld, ops []OpRec, final string) []Violation {
 		var vs []Violation
+		if len(shutsDown) > 0 && shutsDown[0] {
+			// the store has been shut down and the world is quiescent: nothing of rosmar's may still be
+			// running or waiting, except the helper goroutines parked on terminators the client has not
+			// closed yet (R2) - checked BEFORE the teardown closes those terminators
+			for _, t := range vrt.LiveThreads() {
+				if strings.Contains(t, " in recv ") || strings.Contains(t, "(main)") {
+					continue
+				}
+				vs = append(vs, Violation{Prop: "C20", Op: name, Pre: "sched", Field: "goroutine-after-shutdown", Detail: "after the store was shut down this goroutine is still alive: " + t})
+			}
+		}
 		for _, n := range w.Notes {
 			vs = append(vs, Violation{Prop: "C20", Op: name, Pre: "sched", Field: "call-panicked", Detail: n})
 		}
@@ -95,8 +107,10 @@ func followUp(name string) func(w *SWorld, ops []OpRec, final string) []Violatio
 
 func registerC20(name string, disk bool, handles int, setup func(w *SWorld), activity []SOp, sd shutdownKind) {
 	full := fmt.Sprintf("X-%s-vs-%s/%s/h%d", name, sd.name, ifs(disk, "disk", "mem"), handles)
+	// does the shutdown call end the store? (deleted, or the last handle of an on-disk bucket closed)
+	shuts := sd.name == "CloseAndDelete" || (disk && (sd.name == "CloseAll" || (sd.name == "Close" && handles == 1)))
 	RegisterScenario(&Scenario{Name: full, Prop: []string{"C20"}, Disk: disk, Handles: handles, Setup: setup,
-		Threads: [][]SOp{activity, {opShutdown(sd)}}, Check: followUp(full)})
+		Threads: [][]SOp{activity, {opShutdown(sd)}}, Check: followUp(full, shuts)})
 }
 
 func init() {
